@@ -1,4 +1,5 @@
 import EpgVerif.Props.C05
+import EpgVerif.Props.C05Path
 import EpgVerif.Tie.PhysSites
 open EpgVerif.Props.C05
 #print axioms ramp_integral
@@ -17,3 +18,8 @@ open EpgVerif.Props.C05
 #print axioms EpgVerif.Tie.Diffusion.att_scalar_tie
 #print axioms EpgVerif.Tie.Diffusion.att_tensor_tie
 #print axioms EpgVerif.Tie.PhysSites.sites_as_modelled
+#print axioms prod_map_sum_sections
+#print axioms ptLin_eq_sum
+#print axioms pathway_expansion
+#print axioms diag_comp
+#print axioms diffuse_is_diag
